@@ -599,6 +599,8 @@ fn flush_worker_shards(
         .retirement_queue
         .released_sectors
         .load(Ordering::Relaxed);
+    #[cfg(feoxdb_verif)]
+    crate::verif::sched_point("flush_worker_shards", ctx.worker_id as u64, 0);
     let mut has_retries = false;
     let mut first_error = None;
 
@@ -757,6 +759,8 @@ fn process_deletions(
     }
 
     if !marker_writes.is_empty() {
+        #[cfg(feoxdb_verif)]
+        crate::verif::sched_point("before_retire_extents", marker_extents[0].0, marker_extents.len() as u64);
         match disk_io.write().retire_extents(&marker_extents) {
             Ok(()) => {
                 for entry in &marker_writes {
@@ -785,6 +789,8 @@ fn process_deletions(
         releasable.push(entry);
     }
 
+    #[cfg(feoxdb_verif)]
+    crate::verif::sched_point("before_release", releasable.len() as u64, 0);
     releasable.sort_unstable_by_key(|entry| entry.record.sector.load(Ordering::Acquire));
     let mut free_space_guard = free_space.write();
     let mut group = Vec::with_capacity(releasable.len());
@@ -976,6 +982,8 @@ fn process_write_batch(
             })
             .collect::<Vec<_>>();
         let journal_active = !journal_extents.is_empty();
+        #[cfg(feoxdb_verif)]
+        crate::verif::sched_point("batch_before_journal", journal_extents.len() as u64, 0);
 
         if journal_active {
             match disk_guard.write_allocation_journal(&journal_extents) {
@@ -1017,6 +1025,8 @@ fn process_write_batch(
             crash_at("before_replacement_write");
         }
 
+        #[cfg(feoxdb_verif)]
+        crate::verif::sched_point("batch_before_data", 0, 0);
         let mut attempts = 3;
         let mut delay_us = 100;
 
@@ -1079,6 +1089,8 @@ fn process_write_batch(
             }
         }
 
+        #[cfg(feoxdb_verif)]
+        crate::verif::sched_point("batch_before_clear", 0, 0);
         if journal_active {
             crash_at("before_allocation_journal_clear");
             if let Err(error) = disk_guard.clear_allocation_journal() {
@@ -1102,6 +1114,8 @@ fn process_write_batch(
         if has_deletions {
             crash_at("after_replacement_write");
         }
+        #[cfg(feoxdb_verif)]
+        crate::verif::sched_point("batch_before_publish", 0, 0);
         for write in &prepared_writes {
             write
                 .entry
